@@ -371,3 +371,60 @@ func H_jsStruct(t int, es6 bool) {
 		}
 	}
 }
+
+// H_jsLiteralIn: a string literal (marker + n symbolic ASCII bytes) standing at position pos of a
+// command: the generated JavaScript contains exactly the token the generator emits for the
+// literal alone (whose denotation H_jsLiteral checks), wherever the literal stands.
+func H_jsLiteralIn(pos, n int) {
+	text := "Zq" + jsSymText(n, 0)
+	lit := func() ast.Node { return &ast.StringNode{Quoted: "<unused>", Value: text} }
+	gen := func(node ast.Node) string {
+		var buf bytes.Buffer
+		s := &state{wr: &buf, bufferName: "output", options: Options{Formatter: &ES5Formatter{}}, funcsCalled: map[string]string{}, funcsInFile: map[string]bool{}}
+		s.scope.push()
+		s.walk(node)
+		return buf.String()
+	}
+	want := gen(lit())
+	x := &ast.DataRefNode{Key: "x"}
+	body := &ast.ListNode{Nodes: []ast.Node{&ast.RawTextNode{Text: []byte("b")}}}
+	var node ast.Node
+	switch pos {
+	case 0:
+		node = &ast.PrintNode{Arg: lit()}
+	case 1:
+		node = &ast.CallNode{Name: "a.u", Params: []ast.Node{&ast.CallParamValueNode{Key: "p", Value: lit()}}}
+	case 2:
+		node = &ast.CallNode{Name: "a.u", AllData: true, Params: []ast.Node{&ast.CallParamValueNode{Key: "p", Value: lit()}, &ast.CallParamValueNode{Key: "q", Value: x}}}
+	case 3:
+		node = &ast.LetValueNode{Name: "v", Expr: lit()}
+	case 4:
+		node = &ast.IfNode{Conds: []*ast.IfCondNode{{Cond: &ast.EqNode{BinaryOpNode: ast.BinaryOpNode{Name: "==", Arg1: x, Arg2: lit()}}, Body: body}}}
+	case 5:
+		node = &ast.SwitchNode{Value: x, Cases: []*ast.SwitchCaseNode{{Values: []ast.Node{lit()}, Body: body}, {Body: body}}}
+	case 6:
+		node = &ast.PrintNode{Arg: &ast.FunctionNode{Name: "strContains", Args: []ast.Node{x, lit()}}}
+	case 7:
+		node = &ast.PrintNode{Arg: x, Directives: []*ast.PrintDirectiveNode{{Name: "insertWordBreaks", Args: []ast.Node{lit()}}}}
+	case 8:
+		node = &ast.PrintNode{Arg: &ast.DataRefNode{Key: "x", Access: []ast.Node{&ast.DataRefExprNode{Arg: lit()}}}}
+	case 9:
+		node = &ast.ForNode{Var: "i", List: &ast.ListLiteralNode{Items: []ast.Node{lit()}}, Body: body}
+	case 10:
+		node = &ast.PrintNode{Arg: &ast.ElvisNode{BinaryOpNode: ast.BinaryOpNode{Name: "?:", Arg1: x, Arg2: lit()}}}
+	case 11:
+		node = &ast.PrintNode{Arg: &ast.TernNode{Arg1: x, Arg2: lit(), Arg3: &ast.NullNode{}}}
+	case 12:
+		node = &ast.CallNode{Name: "a.u", Data: &ast.MapLiteralNode{Items: map[string]ast.Node{"k": lit()}}}
+	case 13:
+		node = &ast.MsgNode{Body: &ast.ListNode{Nodes: []ast.Node{&ast.MsgPlaceholderNode{Name: "P", Body: &ast.PrintNode{Arg: lit()}}}}}
+	case 14:
+		node = &ast.CssNode{Expr: lit(), Suffix: "c"}
+	case 15:
+		node = &ast.LogNode{Body: &ast.ListNode{Nodes: []ast.Node{&ast.PrintNode{Arg: lit()}}}}
+	}
+	out := gen(node)
+	verifObserve("text", text)
+	verifObserve("js", out)
+	verifAssert(jsCount(out, want) == 1, "a string literal is not emitted as the same JavaScript token at every position of a command")
+}
